@@ -321,6 +321,9 @@ def gen_ops(rng: random.Random, hps: dict[str, Any],
                 op['extra_fwd'] = True
             if acc >= 2 and rng.random() < 0.15:
                 op['reset_after'] = rng.randint(0, acc - 2)
+            if rng.random() < 0.1:
+                # an eval-mode probe before micro-batch k of this iteration
+                op['mid_eval'] = rng.randrange(acc)
             ops.append(op)
             it += 1
             trained += 1
